@@ -50,11 +50,15 @@ static int inst_step (INST *in)
 		{	case K_WRITE : case K_ERRORS : si.format = sp->format ; si.channels = ch ; si.samplerate = sp->rate ; in->s = sf_open_virtual (&MVIO, SFM_WRITE, &si, &in->m) ; break ;
 			case K_PATHWRITE : case K_SD2 : si.format = sp->format ; si.channels = ch ; si.samplerate = sp->rate ; in->s = sf_open (in->path, SFM_WRITE, &si) ; break ;
 			default : if (vh_make_file (&in->m, sp->format, ch, 8000, 1200, 1)) { in->done = 1 ; rec (in, "make-file-failed", -1, NULL, 0) ; return 0 ; }
+				/* a quarter of the read scripts work on a "foreign" file: a few header bytes behind the format tag are altered (parameter tables of block codecs, rates, sizes); whatever a handle
+				** learns from such a file must stay with that handle */
+				if ((sp->seed & 0xC0000) == 0x40000 && in->m.len > 80) { int z ; uint64_t x = sp->seed ; for (z = 0 ; z < 3 ; z++) { long pos ; x = vh_mix (x + z) ; pos = 38 + (long) (x % 34) ; in->m.d [pos] ^= (unsigned char) (1u << ((x >> 8) % 3)) ; } }
 				if ((sp->format & SF_FORMAT_TYPEMASK) == SF_FORMAT_RAW) { si.format = sp->format ; si.channels = ch ; si.samplerate = 8000 ; } in->m.pos = 0 ;
 				in->s = sf_open_virtual (&MVIO, sp->kind == K_READ ? SFM_READ : SFM_RDWR, &si, &in->m) ; break ;
 			}
 		rec (in, "open", in->s ? (long) si.frames * 7 + si.channels : -1, NULL, 0) ;
 		if (!in->s) { in->done = 1 ; return 0 ; }
+		if (si.channels != ch || si.frames > 100000) { sf_close (in->s) ; in->s = NULL ; in->done = 1 ; mv_free (&in->m) ; rec (in, "foreign-file-other-geometry", si.channels, NULL, 0) ; return 0 ; }	/* the script's buffers are sized for the written geometry */
 		return 1 ;
 		}
 	if (st >= sp->nsteps - 1)		/* ---- close */
